@@ -10,7 +10,7 @@
 (* the request itself), Lim (below_limit/above_limit, request side only).      *)
 (*                                                                             *)
 (* C04 (FollowsGraph).  The observable behaviour of one transaction is the      *)
-(* sequence of processor executions <<[flow, key, dir, out],..>>.  TxVerdict     *)
+(* sequence of processor executions <<[flow, sid, key, dir, out],..>>. TxVerdict *)
 (* accepts exactly the sequences that are a depth-first walk of the flow's     *)
 (* connections: start at the stream entry point; after a processor with output  *)
 (* o follow exactly the connections (p, o, _) in declaration order; a Gen on     *)
@@ -170,11 +170,9 @@ WalkSeq(ctx, ts, k, i) ==
     ELSE LET r == WalkNode(ctx, ts[k], i) IN
          IF r.st # "ok" \/ r.ans # "" THEN r ELSE WalkSeq(ctx, ts, k + 1, r.i)
 
-\* an execution that does not belong to a flow of the configuration belongs to a system flow generated from a quota
-IsSys(cfg, e) == ~HasFlow(cfg, e.flow)
-
-\* system-flow events at the head (request) / tail (response) of a transaction are judged by SysVerdict
-UserPart(cfg, seq) == SelectSeq(seq, LAMBDA e : ~IsSys(cfg, e))
+\* an execution of a system flow generated from a quota carries the id of that system flow (sid), "" otherwise
+IsSys(e) == e.sid # ""
+UserPart(seq) == SelectSeq(seq, LAMBDA e : ~IsSys(e))
 
 \* verdict on the user-flow part of one transaction: "ok" or the reason of the rejection
 UserVerdict(cfg, fname, dir, seq, outcome) ==
@@ -202,19 +200,34 @@ UserVerdict(cfg, fname, dir, seq, outcome) ==
             THEN Final(WalkSeq(cs, Targets(cs.lg, r.ans, ""), 1, r.i), "resume")
             ELSE Final(r, "walk")
 
-\* system flows: on a request every system-flow execution precedes every user-flow execution of the request side;
-\* on the response side every system-flow execution follows the user flow
-SysVerdict(cfg, seq) ==
+\* system flows: on the request side every system-flow execution precedes the user flow; on the response side
+\* every system-flow execution follows it, and two system flows that ran on both sides of the transaction run in
+\* reverse order on the response side.  sysreq = the system flow ids in request-side order of this transaction.
+SidOrder(seq) ==
+    LET RECURSIVE G(_, _)
+        G(i, acc) == IF i > Len(seq) THEN acc
+                     ELSE IF IsSys(seq[i]) /\ \A j \in 1..Len(acc) : acc[j] # seq[i].sid
+                          THEN G(i + 1, Append(acc, seq[i].sid)) ELSE G(i + 1, acc)
+    IN G(1, <<>>)
+Pos(s, x) == CHOOSE i \in 1..Len(s) : s[i] = x
+InSeq(s, x) == \E i \in 1..Len(s) : s[i] = x
+
+SysVerdict(seq, sysreq) ==
     LET rq == SelectSeq(seq, LAMBDA e : e.dir = "req")
         rs == SelectSeq(seq, LAMBDA e : e.dir = "res")
-    IN IF \E i, j \in 1..Len(rq) : i < j /\ ~IsSys(cfg, rq[i]) /\ IsSys(cfg, rq[j]) THEN "system-flow-after-user-flow-on-request"
-       ELSE IF \E i, j \in 1..Len(rs) : i < j /\ IsSys(cfg, rs[i]) /\ ~IsSys(cfg, rs[j]) THEN "system-flow-before-user-flow-on-response"
+        oq == IF Len(rq) > 0 THEN SidOrder(rq) ELSE sysreq
+        os == SidOrder(rs)
+    IN IF \E i, j \in 1..Len(rq) : i < j /\ ~IsSys(rq[i]) /\ IsSys(rq[j]) THEN "system-flow-after-user-flow-on-request"
+       ELSE IF \E i, j \in 1..Len(rs) : i < j /\ IsSys(rs[i]) /\ ~IsSys(rs[j]) THEN "system-flow-before-user-flow-on-response"
+       ELSE IF \E i, j \in 1..Len(os) : i < j /\ InSeq(oq, os[i]) /\ InSeq(oq, os[j]) /\ Pos(oq, os[i]) < Pos(oq, os[j])
+            THEN "system-flows-not-reversed-on-response"
        ELSE "ok"
 
-TxVerdict(cfg, fname, dir, seq, outcome) ==
-    IF ~WellFormed(cfg, fname) THEN "ok"
-    ELSE LET s == SysVerdict(cfg, seq) IN
-         IF s # "ok" THEN s ELSE UserVerdict(cfg, fname, dir, UserPart(cfg, seq), outcome)
+TxVerdict(cfg, fname, dir, seq, sysreq, outcome) ==
+    LET s == SysVerdict(seq, sysreq) IN
+    IF s # "ok" THEN s
+    ELSE IF ~WellFormed(cfg, fname) THEN "ok"
+    ELSE UserVerdict(cfg, fname, dir, UserPart(seq), outcome)
 
 \* ------------------------------------------------------------------------- C05
 LoadVerdict(outcome, init) ==
